@@ -47,7 +47,7 @@ pub fn data_dir() -> std::path::PathBuf {
   std::env::var("VERIF_SIM").map(std::path::PathBuf::from).unwrap_or_else(|_| std::path::PathBuf::from("/verif/sim")).join("data")
 }
 
-const GEN_INVOCABLES: [&str; 28] = ["inv2", "rx2", "tu2", "tany2", "tp2", "to2", "num", "tmp", "rx", "c1", "c2", "c3", "c4", "svc", "tbl", "label", "rel", "lst", "inv", "fnd", "tp", "to", "tr", "tcnt", "tmin", "tdef", "tany", "tfirst"];
+const GEN_INVOCABLES: [&str; 29] = ["misc", "inv2", "rx2", "tu2", "tany2", "tp2", "to2", "num", "tmp", "rx", "c1", "c2", "c3", "c4", "svc", "tbl", "label", "rel", "lst", "inv", "fnd", "tp", "to", "tr", "tcnt", "tmin", "tdef", "tany", "tfirst"];
 
 fn setup() -> &'static Setup {
   SETUP.get_or_init(|| {
